@@ -17,6 +17,7 @@ import difflib
 import hashlib
 import json
 import os
+import tempfile
 import re
 import subprocess
 import sys
@@ -38,15 +39,22 @@ class Undecided(Exception):
 def run_extract(unit, repo=None):
     repo = repo or REPO
     udir = os.path.join(UNITS, unit)
-    log_path = os.path.join("/tmp", f"vextract_{unit}_{os.getpid()}.json")
+    # one log file per call: obligations of the same unit run concurrently in threads of one process
+    fd, log_path = tempfile.mkstemp(prefix=f"vextract_{unit}_", suffix=".json")
+    os.close(fd)
     p = subprocess.run([EXTRACT, repo, os.path.join(udir, "unit.toml"), "--log", log_path],
                        capture_output=True, text=True)
     if p.returncode != 0:
+        if os.path.exists(log_path):
+            os.unlink(log_path)
         raise Undecided(f"extraction of unit {unit} failed: {p.stderr.strip()}")
     rules = []
-    if os.path.exists(log_path):
-        rules = json.load(open(log_path))
-        os.unlink(log_path)
+    try:
+        text = open(log_path).read()
+        rules = json.loads(text) if text.strip() else []
+    finally:
+        if os.path.exists(log_path):
+            os.unlink(log_path)
     q = subprocess.run(["rustfmt", "--config-path", RUSTFMT_CFG, "--edition", "2021"],
                        input=p.stdout, capture_output=True, text=True)
     if q.returncode != 0:
